@@ -239,9 +239,13 @@ Definition dec_item (l : list Z) : option (mp_item * list Z) :=
   | _ => None
   end.
 
-(* input: 0|1 ; cl ; chunked ; buf ; has_max ; max ; data ; sched     (0: Request.body, 1: text of a form body)
-          2 ; max_read ; boundary ; body                                (multipart in-memory budget) *)
-Definition corr_C13 (inp : list Z) : list Z :=
+(* input: 0|1 ; cl ; chunked ; buf ; has_max ; max ; data ; sched     (0: Request.body, 1: text of a form body;
+                                                                          errors_map of the current source)
+          4|5 ; ... the same with an EMPTY errors_map: a Request built on a config without errors_map
+                (RequestConfig default) lets the bare exceptions escape
+          2 ; max_read ; boundary ; body                                (multipart in-memory budget)
+          3 ; sub-inputs, each length-prefixed                          (a sequence of requests) *)
+Definition corr_C13_one (inp : list Z) : list Z :=
   match inp with
   | 2%Z :: mr :: r =>
     match dec_str r with
@@ -260,11 +264,21 @@ Definition corr_C13 (inp : list Z) : list Z :=
         let maxb := if Z.eqb hm 0 then None else Some (Z.to_nat mx) in
         let s := stream_init data sc in
         let chunked := negb (Z.eqb ch 0) in
-        if Z.eqb mode 0 then enc_resp (request_body s (Z.to_nat buf) maxb cl chunked)
-        else enc_tresp (form_text s (Z.to_nat buf) maxb cl chunked)
+        let m := if Z.ltb mode 4 then Gen.errors_map else [] in
+        if Z.eqb mode 0 || Z.eqb mode 4 then enc_resp (request_body_with m s (Z.to_nat buf) maxb cl chunked)
+        else enc_tresp (form_text_with m s (Z.to_nat buf) maxb cl chunked)
       | None => bad_input
       end
     | None => bad_input
     end
   | _ => bad_input
+  end.
+
+(* a sequence of requests: every response is a function of its own request (and its application's config) only *)
+Definition run_seq13 (subs : list (list Z)) : list (list Z) := map corr_C13_one subs.
+
+Definition corr_C13 (inp : list Z) : list Z :=
+  match inp with
+  | 3%Z :: r => flat_map (fun o => Z.of_nat (length o) :: o) (run_seq13 (dec_subs (length r) r))
+  | _ => corr_C13_one inp
   end.
